@@ -109,6 +109,16 @@ def sweep_job(j):
         if not quick or i < 130 or i % 3 == 0 or shape != prev_shape:
             b = check_state(data, model, 2, '%s/%s after inserting %d names' % (cfg, seq, i + 1), full=(not quick or i % 4 == 0 or i < 40))
             if b: bad += b; break
+        # re-index probe: e2fsck -fyD on a COPY of this state (the shape of the rebuilt index depends on the exact number of leaves: one leaf more than the
+        # root can address, a second level that has just become necessary, ...), checked like any other state; the sweep itself goes on from the un-rebuilt image
+        if cfg != 'linear' and ((not quick and i % 2 == 0) or (quick and ((seq == 'long' and i >= 290) or i % 16 == 0))):
+            pc = p + '.probe'
+            with open(pc, 'wb') as f: f.write(data)
+            rc, out = run([E2FSCK, '-fyD', pc], timeout=120)
+            if rc not in (0, 1): bad.append('%s/%s: e2fsck -fyD on a copy with %d names exits %s' % (cfg, seq, i + 1, rc)); break
+            b = check_state(open(pc, 'rb').read(), model, 2, '%s/%s: copy re-indexed by e2fsck -fyD at %d names' % (cfg, seq, i + 1), full=True)
+            os.unlink(pc); steps += 1
+            if b: bad += b; break
         if (i + 1) in reindex_at:
             rc, out = run([E2FSCK, '-fyD', p], timeout=120)
             if rc not in (0, 1): bad.append('%s/%s: e2fsck -fyD at %d names exits %s' % (cfg, seq, i + 1, rc)); break
@@ -227,7 +237,7 @@ def main(tier, only=None):
     cfgs = only or (['linear', 'indexed', 'indexed_csum', 'inline'] if quick else list(CONFIGS))
     jobs = []
     for c in cfgs:
-        for seq, N in (('short', 300 if quick else 700), ('long', 330 if quick else 620), ('mixed', 200 if quick else 500)):
+        for seq, N in (('short', 300 if quick else 700), ('long', 400 if quick else 620), ('mixed', 200 if quick else 500)):
             if quick and seq == 'mixed' and c not in ('indexed', 'inline'): continue
             jobs.append((c, seq, N, quick))
     res = pmap(sweep_job, jobs, chunksize=1)
@@ -262,7 +272,7 @@ def main(tier, only=None):
     ck.part('2_bfs_from_thresholds', start_states=len(bj), transitions=trans, distinct_states=states)
     ck.add(evaluations=steps + trans, distinct_nontrivial=steps + states, states=steps + states, transitions=steps + trans, traces_validated_against_impl=steps + trans,
            rule='(1) for each configuration (linear, indexed with odd index limits, indexed+csum, inline_data directories, no filetype, 4k, large_dir) and name sequence (4-byte, 250-byte, mixed lengths) names are inserted one at a time through debugfs up to 300-700 names '
-                'with e2fsck -fyD re-indexing at 40 and 200 names, then removed in 2-4 orders; after the steps the independent listing must equal the model, every name must have the right type and link count, the checker must be clean; '
+                'with e2fsck -fyD re-indexing at 40 and 200 names and, on a copy, at every 16th size and every size from 290 to 400 of the long-name sequence (thorough: every 2nd size),  then removed in 2-4 orders; after the steps the independent listing must equal the model, every name must have the right type and link count, the checker must be clean; '
                 '(2) from every state just before a structural event (new block, index created, index level added) a BFS of depth 1-2 over 63 operations (mkdir, create, symlink, mknod, hard link, rm, rmdir on 9 names incl. a 255-byte one, an existing one, one spelled as an absolute path into the test directory and two root-level names addressed as /name while the current directory is the test directory; the root directory listing and link count are part of the model) with the same oracle',
            samples=['sweep indexed/long insert #251', 'bfs indexed_csum/short@113 + mkdir a ; rm n005'])
     ck.assumptions += ['debugfs ln/unlink do not maintain link counts by design; hard links are made with ln + sif links_count', 'hash-colliding names are not constructed']
